@@ -30,6 +30,7 @@ CLASS_SHAPE = {
     "expr_pct": re.compile(r"^(?:%s|\d+(?:\.\d+)?%%(?:%s)?)(?:[%s](?:%s|\d+(?:\.\d+)?%%(?:%s)?))+\Z" % (_W, _W, OPS, _W, _W)),
     "percent": re.compile(r"^-?\d+(?:\.\d+)?(?:[eE][+-]?\d+)?%(?:[A-Za-z_]\w*)?\Z"),
     "annotation_u": re.compile(r"^[^\W\d]\w*<[^\W\d]\w*>\Z"),
+    "multiword_litfirst": re.compile(r'^(?:"[^"\\\n\t]*"|true|false|null|\d+\.\d+\.\d+)(?: (?!(?:true|false|null|vs)\b)%s)+\Z' % _W),
     "multiword_mixed": re.compile(
         r'^(?!(?:true|false|null|vs)\b)' + _W + r'(?: (?:(?!vs\b)' + _W + r'|42|3\.14|1\.2\.3|"[^"\\\n\t]*"))+\Z'),
 }
@@ -299,6 +300,17 @@ class Lenient:
             name, args = s[:-1].split("<")
             if self.take("constructor_brackets", 0.7):
                 return o.w(f"{name}[{args}]")
+            return o.w(s)
+        if cls == "multiword_litfirst" and bare_ok():
+            line, col = o.pos()
+            toks = re.findall(r'"[^"]*"|\S+', s)
+            first = toks[0]
+            self.rewrites.append({"type": "lenient_parse", "subtype": "multi_word_coalesce", "original": toks, "result": s, "line": line, "column": col})
+            if first.startswith('"'):
+                self.count_protected(first)
+                if len(first) > 2 and self.take("triple_quotes", 0.3 * self.level):
+                    self.rewrites.append({"type": "normalization", "original": '"""', "normalized": first[1:-1], "line": line, "column": col})
+                    return o.w('"""' + first[1:-1] + '"""' + s[len(first):])
             return o.w(s)
         if cls == "multiword_mixed" and bare_ok():
             # words, numbers, versions, literals and quoted words in one bare value (#140/#141): coalesced into the
